@@ -33,7 +33,7 @@ ASSUMPTIONS = [
     "line-step budget: 20x the maximum observed on the pinned tree's fault-free documents, linear in expanded document size",
 ]
 
-BIASES = ["path", "transform", "colour", "length", "points", "viewbox", "number", "use", "container", "used", "edge", None]
+BIASES = ["path", "transform", "colour", "length", "points", "viewbox", "number", "use", "container", "used", "edge", "style"]
 STEP_K = 250
 STEP_C = 50000
 SIZES = [1, 2, 3, 5, 7, 16, 64, 1000, None]
@@ -73,6 +73,19 @@ def generate(seed, index, tier):
     case["bias"] = bias
     case["delivery"] = _delivery(ch)
     case["delivery_ref"] = _delivery(ch)
+    # configuration of the parse (the same for both sides): the error mode stays the default
+    opts = {}
+    if ch.coin(0.4):
+        opts["reify"] = False
+    if ch.coin(0.3):
+        opts["ppi"] = 72.0
+    if ch.coin(0.2):
+        opts["width"], opts["height"] = 500, 400
+    if ch.coin(0.15):
+        opts["color"] = "red"
+    if ch.coin(0.1):
+        opts["transform"] = "scale(2)"
+    case["opts"] = opts
     case["steps"] = bool(index % 4 == 1)
     return case
 
@@ -157,7 +170,7 @@ def execute(case, se, out, trace):
     exc = None
     svg = None
     try:
-        svg = deliver_and_parse(se, xml, case["delivery"], out, counter)
+        svg = deliver_and_parse(se, xml, case["delivery"], out, counter, **case.get("opts", {}))
     except core.StepBudgetExceeded:
         pass
     except RecursionError as e:
@@ -186,7 +199,7 @@ def execute(case, se, out, trace):
     ref_doc = gd.remove_elements(doc, offending)
     xml_ref = gd.serialise(ref_doc)
     try:
-        svg_ref = deliver_and_parse(se, xml_ref, case["delivery_ref"], out, {})
+        svg_ref = deliver_and_parse(se, xml_ref, case["delivery_ref"], out, {}, **case.get("opts", {}))
     except Exception as e:
         if core.is_harness_exc(e):
             raise
